@@ -15,7 +15,7 @@ import z3
 from vf.engine import runner
 from vf.engine.rulesym import SymArch, explore_fn, solver, solver_delta, validate_samples
 from vf.engine.stubs_graph import real_architecture
-from vf.oracles.layers import LayerSpec, build_layer_rule, layer_members, verdict
+from vf.oracles.layers import LayerSpec, build_layer_rule, expected_layer_records, layer_members, layer_records_of, verdict
 from vf.oracles.rules import PyLogic, Z3Logic
 from vf.universes import SHAPES, concrete, evaluate, related
 
@@ -103,12 +103,16 @@ def concrete_outcome(nodes, spec: LayerSpec, edges):
     return evaluate(build_layer_rule(spec), real_architecture(nodes, edges), with_message=False)
 
 
+def _with_records(o):
+    return ("FAIL", layer_records_of(o[1])) if o[0] == "FAIL" else o
+
+
 def symbolic_outcome(spec, ev):
     try:
         rule = build_layer_rule(spec)
     except Exception as e:  # noqa: BLE001
         return ("ERROR", type(e).__name__)
-    return evaluate(rule, ev, with_message=False)
+    return _with_records(evaluate(rule, ev, with_message=True))
 
 
 def known_class(spec: LayerSpec, nodes) -> str | None:
@@ -133,7 +137,16 @@ def work(inst: dict) -> dict:
     code_pass = summ.formula(lambda o: o[0] == "PASS", arch.pool)
     code_err = summ.formula(lambda o: o[0] == "ERROR", arch.pool)
     oracle = verdict(spec, nodes, Z3Logic(arch.var), usable=arch.usable)
-    st, model = solver().check(z3.Or(code_err, code_pass != oracle))
+    # message: every potential record appears exactly when the reference violating set says it must
+    L = Z3Logic(arch.var)
+    must = expected_layer_records(spec, nodes, L, arch.usable)
+    observed = set()
+    for o in summ.outcomes():
+        if o[0] == "FAIL":
+            observed |= o[1]
+    code_fail = summ.formula(lambda o: o[0] == "FAIL", arch.pool)
+    diffs = [summ.formula(lambda o, r=r: o[0] == "FAIL" and r in o[1], arch.pool) != z3.And(code_fail, must.get(r, z3.BoolVal(False))) for r in sorted(observed | set(must), key=repr)]
+    st, model = solver().check(z3.Or(code_err, code_pass != oracle, *diffs))
     res.update({"paths": summ.paths, "forks": summ.forks, "dont_care_vars": len(arch.pairs) - len(summ.keys_in_tree()), "explore_s": summ.explore_s})
     n, errs = validate_samples(summ, arch, lambda edges: _conc(nodes, spec, edges))
     res["replays"] = n
@@ -163,7 +176,7 @@ def _conc(nodes, spec, edges):
         rule = build_layer_rule(spec)
     except Exception as e:  # noqa: BLE001
         return ("ERROR", type(e).__name__)
-    return evaluate(rule, real_architecture(nodes, edges), with_message=False)
+    return _with_records(evaluate(rule, real_architecture(nodes, edges), with_message=True))
 
 
 def replay_detail(payload: dict):
@@ -173,8 +186,14 @@ def replay_detail(payload: dict):
     got = _conc(nodes, spec, edges)
     exp = "PASS" if verdict(spec, nodes, PyLogic(edges)) else "FAIL"
     ok = got[0] == exp
-    text = f"layer rule {spec.label()} on modules {nodes} (layer members {layer_members(spec, nodes)}) with imports {edges}: real code -> {got}, documented semantics -> {exp}"
-    return ok, text, {"real": list(got), "expected": exp}
+    text = f"layer rule {spec.label()} on modules {nodes} (layer members {layer_members(spec, nodes)}) with imports {edges}: real code -> {got[0]}, documented semantics -> {exp}"
+    if ok and got[0] == "FAIL":
+        must = expected_layer_records(spec, nodes, PyLogic(edges))
+        want = {r for r, c in must.items() if c}
+        if got[1] != want:
+            ok = False
+            text += f"; message records not in the violating set: {sorted(got[1] - want, key=repr)}; violating-set records not reported: {sorted(want - got[1], key=repr)}"
+    return ok, text, {"real": [str(x) for x in got], "expected": exp}
 
 
 def replay(payload: dict):
